@@ -82,6 +82,10 @@ def make_design(rng: random.Random, i: int) -> dict:
     focus = {'p_bg': 0.5 if i % 2 else 0.0, 'p_custom': 0.7, 'p_pam': 0.9, 'p_gtf': 0.9, 'n_targetons': rng.choice([2, 2, 3, 4]),
              'cds_mut': ['snvre', 'aa', 'ala', 'inframe'], 'non_cds_mut': ['snv', '1del', '2del0'], 'allow_short_cds': True,
              'bg_kinds': ['snv', 'ins', 'del'], 'p_mask': 0.1, 'p_no_op': 0.7, 'n_pam': [1, 2, 3], 't_max': 70}
+    if i % 5 == 4:
+        # no annotation: the context (and the background sequence) is then computed per targeton - some targetons within reach of a
+        # background variant, some not
+        focus.update(p_gtf=0.0, p_bg=1.0, n_targetons=rng.choice([3, 4]), n_bg=[1, 1, 2], max_bg=2, p_mask=0.0, bg_kinds=['snv', 'ins', 'del', 'ins', 'del'])
     d = gen.gen_sge(rng, focus)
     ts = d['targetons']
     if i % 3 == 0 and d.get('pam'):
@@ -128,7 +132,48 @@ def make_design(rng: random.Random, i: int) -> dict:
                 d['bg'] = recs
                 d.pop('mask', None)
                 d['opts']['no_op'] = True
+    if i % 5 == 2 and d.get('gtf') and not d.get('bg'):
+        twin_region(rng, d)
     return d
+
+
+def twin_region(rng, d: dict) -> None:
+    """A second targeton with exactly the same coding region 2 (another range, other guides, another PAM edit inside the region): whatever
+    is computed for the region of one targeton must not be reused for the other, whose template differs."""
+    exons = gen.exons_of(d)
+    U = d['ref'].upper()
+    ts = d['targetons']
+    cands = [t for t in ts if gen.region_class(exons, t['r2_start'], t['r2_end']) == 'cds' and t['r2_end'] - t['r2_start'] >= 5]
+    if not cands:
+        return
+    t = rng.choice(cands)
+    a, b = t['r2_start'], t['r2_end']
+    lo, hi = max(2, t['ref_start'] - rng.randint(1, 4)), min(len(U) - 1, t['ref_end'] + rng.randint(1, 4))
+    if any((x['ref_start'], x['ref_end']) == (lo, hi) for x in ts):
+        return
+    # two positions of the region in different codons, free of edits
+    pam = [e for e in d.get('pam') or [] if not (a <= e['pos'] <= b)]
+    codon = lambda p_: tuple(sorted(gen.true_codon_positions(d, p_) or [p_]))
+    ps = [p_ for p_ in range(a, b + 1) if gen.true_codon_positions(d, p_) and None not in gen.true_codon_positions(d, p_)
+          and not any(codon(e['pos']) == codon(p_) for e in pam if gen.exon_at(exons, e['pos']))]
+    rng.shuffle(ps)
+    pair = next(((x, y) for x in ps for y in ps if codon(x) != codon(y)), None)
+    if pair is None:
+        return
+    x, y = pair
+    other = lambda c: rng.choice([z for z in 'ACGT' if z != c])
+    pam += [{'pos': x, 'ref': U[x - 1], 'alt': other(U[x - 1]), 'sgrna': 'sgX'}, {'pos': y, 'ref': U[y - 1], 'alt': other(U[y - 1]), 'sgrna': 'sgY'}]
+    d['pam'] = pam
+    acts = sorted(set(cc_parse(t['action'][1])) | {'snv', 'snvre'})
+    t['action'] = [t['action'][0], ', '.join(acts), t['action'][2]]
+    t['sgrna'] = sorted(set(t.get('sgrna') or []) - {'sgY'} | {'sgX'})
+    twin = {'ref_start': lo, 'ref_end': hi, 'r2_start': a, 'r2_end': b, 'ext': [0, 0], 'action': ['', ', '.join(acts), ''], 'sgrna': ['sgY']}
+    ts.insert(rng.randrange(len(ts) + 1), twin)
+    d.pop('vcfs', None)
+
+
+def cc_parse(g: str) -> list[str]:
+    return [x.strip() for x in g.split(',') if x.strip()]
 
 
 def far_context_design(rng: random.Random) -> dict:
@@ -162,6 +207,12 @@ def far_context_design(rng: random.Random) -> dict:
     bg2 = {'pos': q, 'ref': U[q - 1], 'alts': [rng.choice([c for c in 'ACGT' if c != U[q - 1]])], 'id': 'bgo'}
     d['bg'] = sorted([bg1, bg2], key=lambda r: r['pos'])
     d['targetons'] = [O, F] if rng.random() < 0.5 else [F, O]
+    if rng.random() < 0.4:
+        # a quiet O: no background variant in its range, no PAM edit - nothing is applied to it, so with the no-op option it has no no-op
+        # row, whether or not F stretches the shared context over a background variant
+        d['bg'] = [bg1]
+        d['opts'] = {'revcomp': rng.random() < 0.5, 'no_op': True, 'force_ns': True}
+        return d
     if rng.random() < 0.5:
         e = rng.randint(O['r2_start'], O['r2_end'])
         d['pam'] = [{'pos': e, 'ref': U[e - 1], 'alt': rng.choice([c for c in 'ACGT' if c != U[e - 1]]), 'sgrna': 'sg1'}]
